@@ -5,6 +5,8 @@
 package chain
 
 import (
+	"verif/sim/core"
+
 	"fmt"
 	"math"
 	"net"
@@ -428,7 +430,7 @@ func BuildWorld(k GenKnobs) (*World, error) {
 				ProposerTimeout:   2 * time.Second,
 				MaxInMessages:     k.RtMaxInMessages,
 			},
-			Staking:         registry.RuntimeStakingParameters{MinInMessageFee: q(k.RtMinInMsgFee)},
+			Staking:         runtimeStakingParams(k),
 			AdmissionPolicy: registry.RuntimeAdmissionPolicy{AnyNode: &registry.AnyNodeRuntimeAdmissionPolicy{}},
 			Constraints: map[scheduler.CommitteeKind]map[scheduler.Role]registry.SchedulingConstraints{
 				scheduler.KindComputeExecutor: {
@@ -511,6 +513,14 @@ func runtimeStakingParams(k GenKnobs) registry.RuntimeStakingParameters {
 			staking.SlashRuntimeIncorrectResults: {Amount: q(k.RtSlashIncorrect)},
 		}
 		p.RewardSlashBadResultsRuntimePercent = uint8(k.RtSlashIncorrect % 101)
+	}
+	// Half of the genesis runtimes slash for equivocation (roothash.Evidence; own PRNG).
+	if er := core.NewRand(core.Derive(core.Hash64([]byte(k.Salt)), "rt-equivocation", 0)); er.Chance(1, 2) {
+		if p.Slashing == nil {
+			p.Slashing = map[staking.SlashReason]staking.Slash{}
+		}
+		p.Slashing[staking.SlashRuntimeEquivocation] = staking.Slash{Amount: q(uint64(er.Pick([]int{1, 3}) * er.Range(1, 3000)))}
+		p.RewardSlashEquvocationRuntimePercent = uint8(er.Range(0, 100))
 	}
 	return p
 }
